@@ -96,8 +96,8 @@ FAMILIES = {
 
 def plan(tier, seed, complete=False):
     quick = {"Z2": 20000, "Z3": 2500, "Z4": 2500}
-    items, zinfo = PL.plan_docs(tier, seed, complete, quick=quick)
-    fams = [{"fam": k} for k in sorted(FAMILIES)]
+    items, zinfo = PL.plan_docs(tier, seed, complete, quick=quick, check="C01")
+    fams = [] if PL.only_group_b() else [{"fam": k} for k in sorted(FAMILIES)]
     return {
         "items": fams + items,
         "zones": zinfo,
